@@ -84,9 +84,17 @@ def call(name: str, left: Any, *args: Any, **kw: Any) -> tuple[str, Any]:
         return ("foreign", f"{type(x).__name__}: {x}")
 
 
-def render(src: str, **data: Any) -> tuple[str, Any]:
+def env_kind(kind: str) -> Any:
+    if kind not in _ENV:
+        import liquid2
+
+        _ENV[kind] = impl.make_env(shopify=True, undefined=getattr(liquid2, kind))
+    return _ENV[kind]
+
+
+def render(src: str, _env: str = "", **data: Any) -> tuple[str, Any]:
     try:
-        return ("ok", env().from_string(src).render(**data))
+        return ("ok", (env_kind(_env) if _env else env()).from_string(src).render(**data))
     except LiquidError as x:
         return ("liquid", type(x).__name__)
     except Exception as x:  # noqa: BLE001
@@ -351,6 +359,13 @@ def keyed_laws(arr: list[Any], key: str, out: V) -> None:
             b = render("{{ arr | " + f + ": x => x." + key + " | json }}", arr=arr)
             if a != b and not (a[0] != "ok" and b[0] != "ok"):
                 out.append((f"string-key-equals-lambda-form:{f}", [arr, key], a, b))
+            # the two forms also agree under the strict undefined policies (an item without the key is not an error in
+            # either form, or is one in both)
+            for kind in ("StrictUndefined", "FalsyStrictUndefined"):
+                a = render("{{ arr | " + f + ": '" + key + "' | json }}", kind, arr=arr)
+                b = render("{{ arr | " + f + ": x => x." + key + " | json }}", kind, arr=arr)
+                if a != b and not (a[0] != "ok" and b[0] != "ok"):
+                    out.append((f"string-key-equals-lambda-form:{f}:{kind}", [arr, key], a, b))
         # applying a filter leaves the render as it found it: the same expression evaluates to the same value again, and
         # a variable named like the lambda's parameter is what it was (also when the lambda is left at the first match)
         for f in ("find", "find_index", "has", "where", "reject", "map", "sort", "uniq", "sum"):
